@@ -1,4 +1,4 @@
-"""C11 -- undo and redo are exact inverses (clauses R11.1-R11.14)."""
+"""C11 -- undo and redo are exact inverses (clauses R11.1-R11.16)."""
 from __future__ import annotations
 
 import ast
@@ -21,6 +21,7 @@ EXPLANATION = (
 )
 EXPLANATION += ' R11.14: the dependency closure grows with the resources of dependent changes only.'
 EXPLANATION += " R11.13: dependencies between changes are decided on paths, not on Resource objects or the recorded object's kind."
+EXPLANATION += " R11.16: the move operation of the change layer tests that the destination is free before it touches the disk (open finding: it does not; a pinned test moves a file onto an existing one)."
 ASSUMPTIONS = ["_ResourceOperations primitives do what their names say (C13/C16 check notify and codec separately)"]
 
 INVERSE = {"write_file": "write_file", "move": "move", "create": "remove", "remove": "create"}
@@ -447,6 +448,9 @@ def check(ctx, res) -> None:
     _check_body(ctx, res)
     _dependency_by_path_rule(ctx, res)
     _closure_grows_with_dependents_only_rule(ctx, res)
+    _move_does_not_overwrite_rule(ctx, res)
+
+
 def _closure_grows_with_dependents_only_rule(ctx, res) -> None:
     """R11.14: the dependency closure of a selective undo is built by one pass over the later changes: a change is taken along
     when it touches a resource of the closure SO FAR, and only then do its own resources join the closure.  The statement
@@ -477,3 +481,32 @@ def _closure_grows_with_dependents_only_rule(ctx, res) -> None:
                 f"`{ast.unparse(nd.ast)[:70]}` runs for EVERY later change, dependent or not: after `edit a.txt (#0), edit b.txt (#1), edit b.txt (#2)`, undo(#0) takes "
                 "#2 along because #1 put b.txt into the set -- b.txt ends with #1's content and #2 sits in the redo list", function=f.qualname)
     res.floor("R11.14", "updates of the recorded resource set inside the pass", n, 1)
+
+
+def _move_does_not_overwrite_rule(ctx, res) -> None:
+    """R11.16: undo of a move is the move back -- the exact inverse only if the destination was FREE: `shutil.move` / `os.rename` replace an
+    existing file silently, and moving back does not bring it back.  Like the creation of a resource (which refuses "Resource <...> already
+    exists"), the move operation of the change layer tests that nothing is at the destination before it touches the disk."""
+    idx = ctx.idx
+    ops = idx.need_class("rope.base.change._ResourceOperations")
+    mv = ops.methods.get("move")
+    if mv is None:
+        raise AnalysisError("anchor=_ResourceOperations.move missing")
+    node = common.inline_private_calls(idx, mv, keep=tuple(k for k in ops.methods if "fscommands" in k))
+    cfg = CFG(node)
+    ps = mv.call_params()
+    n = 0
+    for nd in cfg.nodes:
+        if nd.ast is None or nd.kind not in ("stmt", "test"):
+            continue
+        for c in calls_in(nd.ast):
+            if not (isinstance(c.func, ast.Attribute) and c.func.attr == "move" and len(c.args) == 2 and not is_self_attr(c.func)):
+                continue
+            n += 1
+            tested = any(any(isinstance(y, ast.Call) and call_name(y) in ("exists", "lexists", "isfile", "isdir") and len(ps) > 1 and any(
+                isinstance(z, ast.Name) and z.id == ps[1] for z in ast.walk(y)) for y in ast.walk(t)) for t, pol in common.plain_guards(cfg, nd.id))
+            res.add("R11.16", f"_ResourceOperations.move|destination-is-free#{n}", tested, f"{mv.unit.rel}:{c.lineno}",
+                    "the move is performed only after a test that nothing is at the destination" if tested else
+                    f"`{ast.unparse(c)[:70]}` is performed without a test that the destination is free: `x.py` moved onto an existing `y.py` replaces it silently, the change is recorded, and "
+                    "undo() moves the file back -- `y.py` is gone for good (also through Rename of a module to the name of an existing one)", function=mv.qualname)
+    res.floor("R11.16", "file-system moves of the change layer", n, 1)
